@@ -4,7 +4,8 @@ _COQ = ["Common/ListLemmas.v", "RefCount/Model.v", "RefCount/Spec.v", "RefCount/
 _RULE = ("implementation-driven random gate-level histories of RefCount (SetContext, AddRef with nil/logging/released-calling "
          "callbacks, Ref.Release in two segments incl. double releases, released() from outside and from under the mutex, resolve "
          "goroutines stepped through their first select, resolver returns with/without release function and error, store sections, "
-         "Wait and WaitWithReleased consumers with cancellation) + corpus; distinct = distinct event sequence; non-trivial = >= 10 events")
+         "Wait, WaitWithReleased and Access consumers with cancellation, Access callbacks returning before and after an invalidation "
+         "incl. the ABA shape in a configuration where the resolver returns a constant value) + corpus; distinct = distinct event sequence; non-trivial = >= 10 events")
 
 
 def _parse(ev, o):
@@ -42,6 +43,7 @@ _TRUSTED = SCHED_TRUSTED + [
 _ASSUME = ["root contexts are not cancelled from outside while installed",
            "the resolver returns value g+1 (never the empty value) and error codes other than context.Canceled",
            "consumer kind 1 = WaitWithReleased + the six lines of ResolveWithReleased replicated in the harness",
+           "the reference of an Access call is private to it (no other actor calls its Release)",
            "the nonce does not wrap (2^32 restarts)"]
 _TECH = "Coq inductive invariant over a gate-level interleaving model + schedule-controlled differential correspondence (synctest) against the Go code"
 
@@ -81,19 +83,27 @@ PROPS = {
                     note=NOTE + "Liveness is quiescence safety (fairness of the Go scheduler is not modelled). 'No deadlock' = every API call is a single "
                                 "mutex section that never waits; the lock discipline itself is C13's obligation.",
                     technique=_TECH)),
-    "C10": dict(pid=10, coq=_COQ8 + ["RefCount/ProofsC10.v", "RefCount/Props_C10.v"], props_file="RefCount/Props_C10.v", models=_MODELS, trusted=_TRUSTED, assumptions=_ASSUME,
+    "C10": dict(pid=10, coq=_COQ8 + ["RefCount/ProofsC10.v", "RefCount/ProofsC10a.v", "RefCount/ProofsC10b.v", "RefCount/Props_C10.v"], props_file="RefCount/Props_C10.v", models=_MODELS, trusted=_TRUSTED, assumptions=_ASSUME,
                 meta=dict(
-                    text="Coq theorems about the same model (consumers = Wait / ResolveWithReleased callers with their reference callbacks): from "
-                         "every reachable state, a step that calls a release function while some reference (in particular the returned one) stays "
-                         "in the set is an invalidation (SetContext with a different context, released() of the current generation) or the store "
-                         "section of a superseded goroutine releasing its own never-delivered result; callReleasedOnce: the released callback "
-                         "fires at most once along every event list (invariant over the consumer table), an invalidation notified after the value "
-                         "was returned fires it - at once if the reference was already released, else through the spawned goroutine whose section "
-                         "fires exactly once - and nothing moves the count afterwards; the resolver's error or Canceled is passed through with the "
-                         "zero value after releasing the reference. Monitors on the implementation's observations: no release of a held, "
-                         "not-invalidated value; fired <= 1; at quiescence an invalidated holder's callback has fired exactly once.",
-                    note=NOTE + "PARTIAL: the Access clauses (callback context cancelled on change, restart with the new value) are not in the model; "
-                                "nothing is claimed about Access. Not proved in Coq (checked by monitor clause 10.1 on every trace): that a consumer's "
-                                "returned value is one of the delivered generation values.",
+                    text="Coq theorems about the same model (consumers = Wait / ResolveWithReleased / Access callers with their reference "
+                         "callbacks): from every reachable state, a step that calls a release function while some reference (in particular the "
+                         "returned one) stays in the set is an invalidation (SetContext with a different context, released() of the current "
+                         "generation) or the store section of a superseded goroutine releasing its own never-delivered result; callReleasedOnce: "
+                         "the released callback fires at most once along every event list, an invalidation notified after the value was returned "
+                         "fires it (at once, or through the spawned goroutine whose section fires exactly once), nothing moves the count afterwards; "
+                         "errors / Canceled are passed through. Access (no value-uniqueness assumption): invariants over all event lists - its "
+                         "private reference stays in the set with its callback while the call runs (linking + release-flag invariants), its "
+                         "Broadcast-guarded copy mirrors the container, the nonce never runs behind the snapshot - give: inside the callback with an "
+                         "uncancelled context the value is the container's current one; whenever that value is invalidated the context is cancelled; "
+                         "per step, the callback's result is returned only if no change was notified since Access looked, otherwise the loop top "
+                         "hands the replacement to the callback or returns the resolver's error; at rest with a stored value a running Access is "
+                         "inside its callback; Canceled for a cancelled caller. The seeded ABA variant is a _refuted theorem. Monitors on the "
+                         "implementation's observations: clauses 10.1-10.3 as before; 10.4 value passed = current value; 10.5 invalidated => "
+                         "callback context cancelled; 10.6 callback result returned only from an unraced invocation, re-invocation at quiescence; "
+                         "10.7 resolver error / Canceled returned as such.",
+                    note=NOTE + "Not proved in Coq (checked by monitor clause 10.1 on every trace): that a Wait/ResolveWithReleased consumer's "
+                                "returned value is one of the delivered generation values. Access's private Broadcast is not gated: S1/S2 and the "
+                                "wake-up are consumer steps that the theorems allow to be delayed arbitrarily; the harness realises the eager "
+                                "schedule. In the constant-value configuration (needed for the ABA shape) only clauses 10.4-10.7 are judged.",
                     technique=_TECH)),
 }
